@@ -3,6 +3,7 @@ package c19
 import (
 	"context"
 	"fmt"
+	"net"
 	"os"
 	"path/filepath"
 	"sync"
@@ -157,9 +158,13 @@ func propQuota(c QuotaCase) (o pbt.Outcome) {
 		up0, down0 := upC.Load(), downC.Load()
 		over := u.QuotaMB > 0 && u.PreAgeH < u.Days*24-2 && u.PreloadKB >= int64(u.QuotaMB+1)*1024
 		within := u.QuotaMB == 0 || u.PreAgeH > u.Days*24+2 || u.PreloadKB <= int64(u.QuotaMB)*1024-100
-		ctx, cancel := context.WithTimeout(context.Background(), 15*time.Second)
-		conn, derr := env.Dial(ctx, 0)
-		cancel()
+		var conn net.Conn
+		var derr error
+		if over {
+			ctx, cancel := context.WithTimeout(context.Background(), 15*time.Second)
+			conn, derr = env.Dial(ctx, 0)
+			cancel()
+		}
 		if over {
 			// refused with the quota status, nothing relayed
 			if derr == nil {
@@ -198,34 +203,37 @@ func propQuota(c QuotaCase) (o pbt.Outcome) {
 			}
 			env.StopBounded(3 * time.Second)
 			if !sawQuotaStatus {
-				o.Failf("quota-status", "user %d over quota was refused without the quota status on the wire", i)
+				var wire []string
+				for _, l := range e2e.DecodeLinks(sn, users, tStart, time.Now()) {
+					for _, seg := range l.S2C {
+						wire = append(wire, e2e.DescribeSeg(seg))
+					}
+					wire = append(wire, fmt.Sprintf("decodeErr=%v residue=%d raw=%d c2s=%d", l.ErrS2C, l.ResS2C, len(l.RawS2C), len(l.C2S)))
+				}
+				o.Failf("quota-status", "user %d over quota was refused without the quota status on the wire (dial error: %v; accepts=%d; upload counter now %d; server->client wire: %v)", i, derr, env.Accepts(), upC.Load(), wire)
 				return
 			}
 			// (the application may read the SOCKS5 request of the refused session,
 			// and of a re-created one when the client's open request is
 			// retransmitted on UDP; that is not relaying)
 			if downC.Load() != down0 || upC.Load()-up0 > 4*int64(e2e.Socks5RequestLen(0)) {
-				o.Failf("quota-relayed", "user %d over quota: %d upload / %d download bytes were relayed on a refused session", i, upC.Load()-up0, downC.Load()-down0)
+				sig := "quota-relayed"
+				if downC.Load()-down0 <= 20 && upC.Load()-up0 <= 4*int64(e2e.Socks5RequestLen(0)) {
+					// only the application's immediate SOCKS5 reply slipped through
+					sig = "quota-relayed/handshake-reply-raced-the-refusal"
+				}
+				o.Failf(sig, "user %d over quota: %d upload / %d download bytes were relayed on a refused session", i, upC.Load()-up0, downC.Load()-down0)
 				return
 			}
 			continue
 		}
-		if derr != nil {
-			env.StopBounded(3 * time.Second)
-			if within {
-				o.Failf("wrongly-refused", "user %d is within its allowance (quota %d MB, counted %d KiB, %d h ago) but the session was refused: %v", i, u.QuotaMB, u.PreloadKB, u.PreAgeH, derr)
-				return
-			}
-			continue // band: not asserted
-		}
-		conn.Close()
-		// run the transfer on a fresh session and compare the accounting
+		// run the transfer and compare the accounting
 		res := e2e.RunTransfer(env, []e2e.SessProg{{Up: e2e.DirProg{Writes: u.Up}, Down: e2e.DirProg{Writes: u.Down}}}, e2e.TransferOpts{Salt: c.Salt + uint64(i), StallAfter: 20 * time.Second, MaxWall: 40 * time.Second, IdxBase: 10})
 		env.StopBounded(3 * time.Second)
 		s := res.Sessions[0]
 		if s.OpenErr != "" || !s.Up.DoneReading || !s.Down.DoneReading {
 			if within {
-				o.Failf("wrongly-refused", "user %d within its allowance: transfer failed: %+v", i, s)
+				o.Failf("wrongly-refused", "user %d is within its allowance (quota %d MB, counted %d KiB, %d h ago) but was not served: %+v", i, u.QuotaMB, u.PreloadKB, u.PreAgeH, s)
 				return
 			}
 			continue
@@ -234,10 +242,10 @@ func propQuota(c QuotaCase) (o pbt.Outcome) {
 			o.Failf("attribution", "session of user %q attributed to %q", users[i].Name, s.User)
 			return
 		}
-		// bytes the server application read = SOCKS5 requests (2 sessions) + upstream data
-		req := int64(e2e.Socks5RequestLen(0) + e2e.Socks5RequestLen(10))
+		// bytes the server application read = SOCKS5 request + upstream data
+		req := int64(e2e.Socks5RequestLen(10))
 		wantUp := req + sum(u.Up)
-		wantDown := int64(20) + sum(u.Down) // two SOCKS5 responses
+		wantDown := int64(10) + sum(u.Down) // SOCKS5 response
 		gotUp, gotDown := upC.Load()-up0, downC.Load()-down0
 		if gotUp != wantUp || gotDown != wantDown {
 			o.Failf("accounting", "user %d: the server application read %d and wrote %d bytes, the user's counters grew by %d and %d", i, wantUp, wantDown, gotUp, gotDown)
